@@ -61,6 +61,8 @@ def classify_qn_writer(value):
             return "negate", srcs
         if isinstance(elt, ast.Call) and unparse(elt.func) in ("np.zeros", "np.zeros_like"):
             return "zeros", srcs
+        if not reads:
+            return None            # a list built from something that is not a label list of an object (e.g. restored from an archive): not a combination of labels
         return "unknown", srcs
     if not reads:
         return None
